@@ -2,7 +2,7 @@
 From Coq Require Import Lia ZArith.
 From ChitchatModel Require Import Base SMap Ids Bytes Params NodeState Stream DeltaWire Message Cluster
   FD Chitchat SMap_lemmas Cluster_lemmas Chitchat_lemmas FD_lemmas Inv Compute_lemmas NodeInv
-  Prefix_lemmas Liveness_lemmas World Truth NodeTruth Weak Reach ReachFD Revive.
+  Prefix_lemmas Liveness_lemmas World Truth NodeTruth Weak Reach ReachFD Revive MemInv ReachMem.
 
 (* one classification step: the detector's sets stay disjoint (and sorted), the member is put in
    exactly one of them, nobody else moves, and a member already dead keeps the instant of the
@@ -126,3 +126,15 @@ Theorem C12_removed_member_recreated_only_by_higher_heartbeat : forall zc now n 
   remembered n' i last \/ exists g, In (i, g) (digest_of m) /\ last < g_hb g.
 Proof. exact removed_member_recreated_only_by_higher_heartbeat. Qed.
 Print Assumptions C12_removed_member_recreated_only_by_higher_heartbeat.
+
+(* The removed-member memory in every reachable state, on every node: its keys are distinct and it
+   never lists a member the node currently holds (creation pops the entry, removal pushes it).
+   With C12_removal_remembers_heartbeat (the value pushed is the heartbeat held at removal) these
+   are the two rules of the C12 memory monitor. *)
+Theorem C12_memory_never_lists_a_held_member : forall zc,
+  (forall b c, zc b = Some c -> len c <= len b) -> forall strict g,
+  reachable zc strict g -> forall a n, node_at g a = Some n ->
+    NoDup (map fst (cs_gcn (nd_cs n))) /\
+    forall i c, nm_get i (cs_nodes (nd_cs n)) = Some c -> last_heartbeat_if_deleted (nd_cs n) i = None.
+Proof. exact reachable_mem. Qed.
+Print Assumptions C12_memory_never_lists_a_held_member.
